@@ -10,6 +10,8 @@ import (
 	"hash/fnv"
 	"reflect"
 	"sort"
+	"sync/atomic"
+	"time"
 
 	"github.com/ja7ad/otp"
 	rt "github.com/ja7ad/otp/internal/verifrt"
@@ -305,4 +307,71 @@ func DiffGlobals(a, b map[string]uint64) []string {
 	}
 	sort.Strings(out)
 	return out
+}
+
+// StallSeconds is how long a call may go without executing a single instrumented statement
+// before it is declared blocked.  It is not a latency bound: a call that keeps executing
+// statements is never stopped by it (that is the statement budget's job).
+const StallSeconds = 30
+
+// RunGuarded runs f on its own goroutine and returns false if f is blocked: it has not
+// returned and has not executed one instrumented statement for StallSeconds.  The blocked
+// goroutine is abandoned.  A panic of f is re-raised on the caller's goroutine.
+func RunGuarded(f func()) (returned bool) {
+	done := make(chan any, 1)
+	go func() {
+		defer func() { done <- recover() }()
+		f()
+	}()
+	last, idle := rt.Steps, 0
+	tick := time.NewTicker(time.Second)
+	defer tick.Stop()
+	for {
+		select {
+		case pv := <-done:
+			if pv != nil {
+				panic(pv)
+			}
+			return true
+		case <-tick.C:
+			if rt.Steps != last {
+				last, idle = rt.Steps, 0
+				continue
+			}
+			idle++
+			if idle >= StallSeconds {
+				return false
+			}
+		}
+	}
+}
+
+// Heartbeat is bumped by long enumerations once per case; WatchStall calls onStall (once)
+// when neither the heartbeat nor the statement counter has moved for StallSeconds.
+var Heartbeat atomic.Int64
+
+func WatchStall(onStall func()) (stop func()) {
+	quit := make(chan struct{})
+	go func() {
+		lastH, lastS, idle := Heartbeat.Load(), rt.Steps, 0
+		tick := time.NewTicker(time.Second)
+		defer tick.Stop()
+		for {
+			select {
+			case <-quit:
+				return
+			case <-tick.C:
+				if h, st := Heartbeat.Load(), rt.Steps; h != lastH || st != lastS {
+					lastH, lastS, idle = h, st, 0
+					continue
+				}
+				idle++
+				if idle >= StallSeconds {
+					onStall()
+					return
+				}
+			}
+		}
+	}()
+	return func() { close(quit) }
 }
